@@ -47,6 +47,10 @@ class Faults:
                     pa.DataFrameSchema({"zz": pa.Column(int)}).validate(pd.DataFrame({"yy": [1]}), lazy=True)
                 except pa.errors.SchemaErrors as e:
                     raise e
+            if self.exc_kind == "IndexError":
+                raise IndexError("list index out of range")
+            if self.exc_kind == "KeyError":
+                raise KeyError("index")
             raise Marker(msg)
 
 
@@ -65,6 +69,8 @@ def build_pandas(c, F, rng_seed):
             checks.append(pa.Check(lambda s, F=F: (F.hit("check-vec"), s == s)[1]))
         elif kind == "agg":
             checks.append(pa.Check(lambda s, F=F: (F.hit("check-agg"), True)[1]))
+        elif kind == "agg-false":
+            checks.append(pa.Check(lambda s, F=F: (F.hit("check-agg-false"), False)[1]))
         elif kind == "groupby":
             # the function receives the dict of groups of another column (named, or through a callable)
             others = [sp["name"] for j, sp in enumerate(S["columns"]) if j != i and sp["regex"] is None
@@ -101,12 +107,13 @@ def gen_fault_case(rng):
     S = c["schema"]
     S["unique"] = []
     n = len(S["columns"])
-    c["callbacks"] = [rng.choice([None, "elem", "vec", "agg", "groupby"]) for _ in range(n)]
+    c["callbacks"] = [rng.choice([None, "elem", "vec", "agg", "groupby", "agg-false"]) for _ in range(n)]
     c["groupby_callable"] = rng.random() < 0.3
     c["parsers"] = [rng.random() < 0.2 for _ in range(n)]
     c["frame_callback"] = rng.choice([None, "frame"])
     c["frame_parser"] = rng.random() < 0.15
     c["lazy"] = True if S["dropInvalid"] else rng.random() < 0.5
+    c["entry"] = "Column" if rng.random() < 0.25 else "DataFrameSchema"
     return c
 
 
@@ -170,6 +177,11 @@ def run_one(c, at=None, exc_kind="Marker"):
     F.at = at
     F.exc_kind = exc_kind
     schema = build_pandas(c, F, 0)
+    if c.get("entry") == "Column":
+        # one column of the schema validated on its own (it keeps its callbacks, default, coercion)
+        names = [n_ for n_, col_ in schema.columns.items() if not col_.regex and n_ in {x["name"] for x in c["frame"]["cols"]}]
+        if names:
+            schema = schema.columns[names[0]]
     df = A.frame_of(c["frame"])
     snap = snapshot_df(df)
     fp0 = c05.fp(schema)
@@ -197,7 +209,7 @@ def run_faults(rep, cases):
             continue
         ncalls = base["calls"]
         rep.count("faultfree:" + base["outcome"].split(":")[0])
-        rep.case({k: c[k] for k in ("schema", "frame", "callbacks", "parsers", "frame_callback", "frame_parser", "lazy")},
+        rep.case({k: c.get(k) for k in ("schema", "frame", "callbacks", "parsers", "frame_callback", "frame_parser", "lazy", "entry")},
                  nontrivial=ncalls > 0)
         judge(rep, c, None, base)
         for k in range(1, ncalls + 1):
@@ -212,7 +224,7 @@ def run_faults(rep, cases):
             judge(rep, c, k, r, kind)
             if kind.startswith("check"):
                 # the same fault raised as pandera's own error classes (a check that validates with another schema)
-                for ek in ("SchemaError", "SchemaErrors"):
+                for ek in ("SchemaError", "SchemaErrors", "IndexError", "KeyError"):
                     try:
                         r = run_one(c, k, ek)
                     except Exception as e:  # noqa: BLE001
@@ -225,7 +237,7 @@ def run_faults(rep, cases):
 
 def judge(rep, c, k, r, kind=None, exc_kind="Marker"):
     case = {kk: c.get(kk) for kk in ("schema", "frame", "callbacks", "parsers", "frame_callback", "frame_parser", "lazy",
-                                     "groupby_callable")}
+                                     "groupby_callable", "entry")}
     case["fault_at"] = k
     case["fault_class"] = exc_kind
     o = r["outcome"]
@@ -237,6 +249,8 @@ def judge(rep, c, k, r, kind=None, exc_kind="Marker"):
         rep.property_failure(case, f"an exception raised by a user check ({kind}, call #{k}) escaped instead of being "
                                    "reported as a failed check")
         return
+    if kind == "check-agg-false":
+        kind = "checkfalse"     # this callback never raises by itself; only the generic clauses below apply
     if k is not None and kind is not None and kind.startswith("check") and o == "return":
         rep.property_failure(case, f"a user check raised ({kind}, call #{k}) but validation returned normally")
         return
